@@ -207,7 +207,7 @@ Proof.
     rewrite Hbits.
     assert (Hklen : N.to_nat ((8 * N.of_nat (List.length key) + 7) / 8) = List.length key).
     { replace ((8 * N.of_nat (List.length key) + 7) / 8)%N with (N.of_nat (List.length key)); [lia|].
-      symmetry. apply (N.div_unique _ 8 _ 7); lia. }
+      apply (N.div_unique _ 8 _ 7); lia. }
     rewrite Hklen.
     rewrite sub_length by lia.
     replace (Nat.leb (c_size K.xfrm_algo + List.length key) 132) with true
@@ -223,4 +223,171 @@ Proof.
     cbn [lookup attr_fields algo_attr at_fields at_code at_type prefixed map join fst snd String.eqb Ascii.eqb Bool.eqb
          String.append leaf_bytes leaf_len lf_n lf_w Nat.mul Nat.add lf_path].
     rewrite key_image by assumption. reflexivity.
+Qed.
+
+Lemma nla_parse_nil fuel : nla_parse (S fuel) [] = Some [].
+Proof. reflexivity. Qed.
+
+Lemma nla_parse_step fuel d len :
+  N.to_nat (kint K.nlattr "nla_len" d 0) = len -> 4 <= len <= List.length d ->
+  nla_parse (S fuel) d
+  = match nla_parse fuel (skipn (round_up len 4) d) with
+    | Some r => Some ((kint K.nlattr "nla_type" d 0, (len, sub d 4 (len - 4))) :: r)
+    | None => None
+    end.
+Proof.
+  intros Hl Hb. destruct d as [|b d']; [cbn in Hb; lia|].
+  cbn [nla_parse]. change NLA_HDRLEN with 4. change (Z.to_nat K.NLA_ALIGNTO) with 4. rewrite Hl.
+  replace (Nat.ltb (List.length (b :: d')) 4) with false by (symmetry; apply Nat.ltb_ge; lia).
+  replace (Nat.ltb len 4) with false by (symmetry; apply Nat.ltb_ge; lia).
+  replace (Nat.ltb (List.length (b :: d')) len) with false by (symmetry; apply Nat.ltb_ge; lia).
+  reflexivity.
+Qed.
+
+Lemma skipn_app_len {A} (x y : list A) n : n = List.length x -> skipn n (x ++ y) = y.
+Proof. intros ->. apply skipn_app_exact. Qed.
+
+Lemma nla_parse_algo fuel code name key rest :
+  (0 <= code < 65536)%Z -> wf_name name -> List.length key <= 64 ->
+  let d := attr_bytes (algo_attr code name key) ++ rest in
+  nla_parse (S fuel) d
+  = match nla_parse fuel rest with
+    | Some r => Some ((Z.to_N code, (136, sub d 4 132)) :: r)
+    | None => None
+    end.
+Proof.
+  intros Hc Hn Hk d. destruct (algo_attr_decoded code name key rest Hc Hn Hk) as (Hlen & Hty & _).
+  fold d in Hlen, Hty.
+  rewrite (nla_parse_step fuel d 136).
+  - replace (skipn (round_up 136 4) d) with rest.
+    + rewrite Hty. reflexivity.
+    + subst d. symmetry. apply skipn_app_len. rewrite attr_algo_length. reflexivity.
+  - rewrite Hlen. reflexivity.
+  - subst d. rewrite app_length, attr_algo_length. lia.
+Qed.
+
+Lemma addr_words_leb x : Nat.leb (List.length (addr_words x)) 4 = true.
+Proof. apply Nat.leb_le, addr_words_length. Qed.
+
+Lemma newsa_attrs a :
+  rq_attrs (emit_newsa a)
+  = (if Z.eqb (a_ipsec_proto a) 50 then [algo_attr 2 (a_enc a) (a_ske a)] else [])
+    ++ [algo_attr 1 (a_auth a) (a_ska a)].
+Proof. reflexivity. Qed.
+
+Lemma algo_check code name key :
+  wf_name name -> List.length key <= 64 ->
+  check_struct Py.XfrmAlgo (at_fields (algo_attr code name key)) = None.
+Proof.
+  intros [Hn _] Hk. unfold check_struct.
+  let v := eval vm_compute in (layout Py.XfrmAlgo) in change (layout Py.XfrmAlgo) with v.
+  cbn [check_leaves lookup lf_path String.eqb Ascii.eqb Bool.eqb leaf_check lf_n lf_w Nat.eqb andb algo_attr at_fields].
+  replace (Nat.ltb 64 (List.length name)) with false by (symmetry; apply Nat.ltb_ge; lia).
+  replace (Nat.ltb 64 (List.length key)) with false by (symmetry; apply Nat.ltb_ge; lia).
+  reflexivity.
+Qed.
+
+Lemma newsa_check a : wf_sa a -> check_request (emit_newsa a) = None.
+Proof.
+  intros (Hs & Hd & Hv & Hps & Hpd & Hsp & Hdp & Hspi & Hip & Hpr & Hm & Hsrc & Hdst & Hv2 & Henc & Hauth & Hska & Hl).
+  unfold check_request.
+  assert (Hp : check_struct (rq_ptype (emit_newsa a)) (rq_payload (emit_newsa a)) = None).
+  { unfold check_struct, emit_newsa, create_sa. cbn [rq_ptype rq_payload].
+    let v := eval vm_compute in (layout Py.XfrmUserSaInfo) in change (layout Py.XfrmUserSaInfo) with v.
+    destruct (Z.ltb (a_lifetime a) 0);
+      cbn [check_leaves lookup lf_path String.eqb Ascii.eqb Bool.eqb leaf_check lf_n lf_w Nat.eqb andb];
+      rewrite !addr_words_leb, Hspi; reflexivity. }
+  rewrite Hp, newsa_attrs.
+  destruct Hpr as [Hpr|Hpr]; rewrite Hpr; cbn [Z.eqb Pos.eqb app check_attrs at_type algo_attr];
+    fold (algo_attr 2 (a_enc a) (a_ske a)); fold (algo_attr 1 (a_auth a) (a_ska a)).
+  - destruct (Henc Hpr) as [He Hk]. cbn [check_attrs]. 
+    change (at_type (algo_attr 2 (a_enc a) (a_ske a))) with Py.XfrmAlgo.
+    rewrite (algo_check 2 _ _ He Hk).
+    change (at_type (algo_attr 1 (a_auth a) (a_ska a))) with Py.XfrmAlgo.
+    now rewrite (algo_check 1 _ _ Hauth Hska).
+  - cbn [check_attrs]. change (at_type (algo_attr 1 (a_auth a) (a_ska a))) with Py.XfrmAlgo.
+    now rewrite (algo_check 1 _ _ Hauth Hska).
+Qed.
+
+Lemma attrs_length (l : list attr) :
+  Forall (fun x => exists c n k, x = algo_attr c n k) l ->
+  List.length (flat_map attr_bytes l) = 136 * List.length l.
+Proof.
+  induction 1 as [|x r (c & n & k & ->) _ IH]; [reflexivity|].
+  cbn [flat_map List.length]. rewrite app_length, attr_algo_length, IH. lia.
+Qed.
+
+Theorem newsa_roundtrip a seq pid :
+  wf_sa a -> wf32 seq -> wf32 pid ->
+  let r := emit_newsa a in
+  emit_request r seq pid = Ok (message_bytes r seq pid) /\
+  kernel_decode_newsa (message_bytes r seq pid) = Some (intended_newsa a seq pid).
+Proof.
+  intros Hwf Hseq Hpid r.
+  split; [unfold emit_request; subst r; now rewrite newsa_check|].
+  pose proof Hwf as (_ & _ & _ & _ & _ & _ & _ & _ & _ & Hpr & _ & Hsrc & Hdst & Hv2 & Henc & Hauth & Hska & _).
+  set (attrs := flat_map attr_bytes (rq_attrs r)).
+  set (payload := encode_struct Py.XfrmUserSaInfo (rq_payload r)).
+  assert (Hpl : List.length payload = 224) by (subst payload; rewrite encode_struct_length by closed; closed).
+  assert (Hal : List.length attrs = newsa_length a - 240).
+  { subst attrs r. rewrite newsa_attrs. unfold newsa_length.
+    destruct Hpr as [Hp|Hp]; rewrite Hp; cbn [Z.eqb Pos.eqb app];
+      rewrite attrs_length by (repeat constructor; eauto); cbn; lia. }
+  assert (Hnl : 376 <= newsa_length a /\ newsa_length a <= 512).
+  { unfold newsa_length. destruct (Z.eqb (a_ipsec_proto a) 50); lia. }
+  assert (Hdata : request_data r = payload ++ attrs) by reflexivity.
+  assert (Hlen : List.length (message_bytes r seq pid) = newsa_length a).
+  { rewrite message_length, Hdata, app_length, Hpl, Hal. lia. }
+  set (hdr := header_bytes (Z.of_nat (c_size Py.NetlinkHeader) + Z.of_nat (List.length (request_data r)))
+                           (rq_type r) (rq_flags r) seq pid).
+  assert (Hmsg : message_bytes r seq pid = hdr ++ payload ++ attrs) by (unfold message_bytes; cbv zeta; now rewrite Hdata).
+  assert (Hh : k_header (message_bytes r seq pid)
+               = mk_khdr (N.of_nat (newsa_length a)) (Z.to_N K.XFRM_MSG_NEWSA) flags_request_ack (Z.to_N seq) (Z.to_N pid)).
+  { unfold message_bytes. cbv zeta. rewrite k_header_emitted; try assumption.
+    - f_equal. rewrite Hdata, app_length, Hpl, Hal. change (c_size Py.NetlinkHeader) with 16. lia.
+    - rewrite Hdata, app_length, Hpl, Hal. change (c_size Py.NetlinkHeader) with 16. unfold wf32. lia.
+    - subst r. cbn. lia.
+    - subst r. cbn. lia. }
+  unfold kernel_decode_newsa, framed. rewrite Hh, Hlen. cbn [kh_len].
+  change (NLMSG_HDRLEN + c_size K.xfrm_usersa_info) with 240. change (align4 240) with 240.
+  replace (Nat.leb 240 (newsa_length a)) with true by (symmetry; apply Nat.leb_le; lia).
+  rewrite N.eqb_refl. cbn [andb].
+  assert (Hskip : skipn 240 (message_bytes r seq pid) = attrs).
+  { rewrite Hmsg, app_assoc. apply skipn_app_len. rewrite app_length, Hpl. subst hdr. now rewrite header_bytes_length. }
+  rewrite Hskip.
+  assert (Hhl : List.length hdr = 16) by (subst hdr; apply header_bytes_length).
+  destruct (newsa_scalars a hdr attrs Hhl Hwf) as (F1 & F2 & F3 & F4 & F5 & F6 & F7 & F8 & F9 & F10).
+  pose proof (newsa_sel a hdr attrs Hhl Hwf) as Fsel.
+  pose proof (newsa_lft a hdr attrs Hhl Hwf) as Flft.
+  fold r in F1, F2, F3, F4, F5, F6, F7, F8, F9, F10, Fsel, Flft. fold payload in F1, F2, F3, F4, F5, F6, F7, F8, F9, F10, Fsel, Flft.
+  rewrite <- Hmsg in F1, F2, F3, F4, F5, F6, F7, F8, F9, F10, Fsel, Flft.
+  change NLMSG_HDRLEN with 16.
+  rewrite F1, F2, F3, F4, F5, F6, F7, F8, F9, F10, Fsel, Flft.
+  Show. rewrite (family_same _ _ Hv2) at 1. rewrite !kaddr_image by assumption.
+  (* attributes *)
+  subst attrs. replace (rq_attrs r) with
+    ((if Z.eqb (a_ipsec_proto a) 50 then [algo_attr 2 (a_enc a) (a_ske a)] else []) ++ [algo_attr 1 (a_auth a) (a_ska a)])
+    by (symmetry; apply newsa_attrs).
+  unfold intended_newsa.
+  destruct Hpr as [Hp|Hp]; rewrite Hp; cbn [Z.eqb Pos.eqb app flat_map].
+  - destruct (Henc Hp) as [He Hk].
+    rewrite nla_parse_algo by (first [assumption | lia]).
+    rewrite app_nil_r.
+    rewrite <- (app_nil_r (attr_bytes (algo_attr 1 (a_auth a) (a_ska a)))) at 1.
+    rewrite nla_parse_algo by (first [assumption | lia]).
+    replace (newsa_length a) with (S (S (newsa_length a - 2))) by lia. rewrite nla_parse_nil.
+    cbn [nla_find N.eqb Pos.eqb Z.to_N K.XFRMA_ALG_CRYPT K.XFRMA_ALG_AUTH opt_algo].
+    destruct (algo_attr_decoded 2 (a_enc a) (a_ske a) (attr_bytes (algo_attr 1 (a_auth a) (a_ska a))) ltac:(lia) He Hk)
+      as (_ & _ & D1).
+    destruct (algo_attr_decoded 1 (a_auth a) (a_ska a) [] ltac:(lia) Hauth Hska) as (_ & _ & D2).
+    change NLA_HDRLEN with 4 in D1, D2. change (136 - 4) with 132 in D1, D2.
+    rewrite D1, D2. reflexivity.
+  - rewrite app_nil_r.
+    rewrite <- (app_nil_r (attr_bytes (algo_attr 1 (a_auth a) (a_ska a)))) at 1.
+    rewrite nla_parse_algo by (first [assumption | lia]).
+    replace (newsa_length a) with (S (newsa_length a - 1)) by lia. rewrite nla_parse_nil.
+    cbn [nla_find N.eqb Pos.eqb Z.to_N K.XFRMA_ALG_CRYPT K.XFRMA_ALG_AUTH opt_algo].
+    destruct (algo_attr_decoded 1 (a_auth a) (a_ska a) [] ltac:(lia) Hauth Hska) as (_ & _ & D2).
+    change NLA_HDRLEN with 4 in D2. change (136 - 4) with 132 in D2.
+    rewrite D2. reflexivity.
 Qed.
